@@ -377,6 +377,7 @@ func (m *mapVal) SetKey(key string, val value) {
 		*m.Order = append(*m.Order, key)
 	}
 	m.Pairs[key] = val
+	verifMap("SetKey", m, key)
 }
 
 func (m *mapVal) Delete(key string) {
@@ -390,6 +391,7 @@ func (m *mapVal) Delete(key string) {
 			break
 		}
 	}
+	verifMap("Delete", m, key)
 }
 
 func isReturn(val value) bool {
